@@ -33,6 +33,17 @@ func (c *customLevelCoreWrapper) Enabled(l zapcore.Level) bool {
 	return c.minLevel <= l
 }
 
+// With adds structured context to the wrapped core and keeps the custom level.
+// Without it the embedded Core's With would be promoted, which returns the inner
+// core and silently drops this wrapper (and with it the level) on the next
+// Logger.With.
+func (c *customLevelCoreWrapper) With(fields []zapcore.Field) zapcore.Core {
+	return &customLevelCoreWrapper{
+		Core:     c.Core.With(fields),
+		minLevel: c.minLevel,
+	}
+}
+
 // Check determines whether the supplied Entry should be logged (using the
 // embedded LevelEnabler and possibly some extra logic). If the entry
 // should be logged, the Core adds itself to the CheckedEntry and returns
